@@ -153,6 +153,8 @@ def scan(ck, T, prop):
             S.oblige('post', z3.Implies(n0 >= 2, nf1(arr, n)), tag='NF1-no-adjacent-pair-reducible', exact=False)
             S.oblige('post', z3.Implies(n0 >= 2, hom_nf(arr, n)), tag='NF2-at-most-one-scalar-at-the-smaller-end',
                      exact=False)
+            S.oblige('post', z3.Implies(n >= 2, no_identity(arr, n)), tag='NF3-no-identity-inside-a-longer-chain',
+                     exact=False, finding='C07-identity-from-rule-stays')
     contracts = {f'{RULES}.IdentityRule.apply': identity_rule_contract,
                  f'{RULES}.HomothetyRule.apply': homothety_rule_contract}
     ck.explore(f'{RULES}.AlgebraicReductionRule.apply', body, T, contracts=contracts, loop_specs=scan_loop_specs(ghost),
